@@ -188,7 +188,15 @@ EvalUnits(C, node, units, path, acc) ==
            CF == IF <<node, f.name, "call", ToString(n + 1)>> \in C.U.nth
                  THEN [C EXCEPT !.U.data[node][f.name] = ErrV("injected")] ELSE C
            r == EvalField(CF, node, f, path)
+           \* an earlier invocation for this response key failed at the position itself: the position is null (C06), whatever
+           \* a later occurrence of the key yields.  Deviation LaterOccurrenceOverNull: ggql lets the later occurrence
+           \* replace the null, next to the error entry of the failed one.
+           pos == SelectSeq(path, LAMBDA x : x # "f:") \o <<PathKey(Key(f))>>
+           failedBefore == /\ Key(f) \in DOMAIN acc.val /\ acc.val[Key(f)] = NullV
+                           /\ \E j \in DOMAIN acc.errs : /\ SelectSeq(acc.errs[j].path, LAMBDA x : x # "f:") = pos
+                                                         /\ acc.errs[j].class \notin {"undefined_field", "undefined_arg"}
            d == IF r.val.k = "absent" THEN acc.val
+                ELSE IF failedBefore /\ "LaterOccurrenceOverNull" \notin C.dv THEN acc.val
                 ELSE IF Key(f) \in DOMAIN acc.val THEN Put(acc.val, Key(f), Merge(acc.val[Key(f)], r.val))
                 ELSE Put(acc.val, Key(f), r.val)
        IN EvalUnits(C, node, Tail(units), path, Res(d, acc.errs \o r.errs, acc.calls \o r.calls))
